@@ -127,6 +127,33 @@ def rule_b(model, rep):
               witness="after replacing the policy, verify(pw, None) still verifies against the old context's dummy hash: UnknownHashError, or the old (cheaper) cost")
     n_calls = sum(1 for n in walk_no_nested(fn) if isinstance(n, ast.Call) and ast.unparse(n.func) == "self._reset_dummy_verify")
     rep.check(n_calls == 1, R, site(CTX, "CryptContext.load"), f"{n_calls} calls", "exactly one reset, on the common path")
+    # the reset reaches the slot the memoizer fills: _reset_dummy_verify -> <descriptor of _dummy_hash>.clear_cache(self); the descriptor's
+    # store (__get__), clear_cache and peek_cache name the instance slot by the same expression
+    fn = model.func(CTX, "CryptContext._reset_dummy_verify")
+    calls = [ast.unparse(n) for n in walk_no_nested(fn) if isinstance(n, ast.Call)]
+    rep.check("type(self)._dummy_hash.clear_cache(self)" in calls, R, site(CTX, "CryptContext._reset_dummy_verify"), "; ".join(calls), "the reset clears the memoized `_dummy_hash` of this instance")
+    dh = model.func(CTX, "CryptContext._dummy_hash")
+    decos = [ast.unparse(d) for d in dh.decorator_list]
+    rep.check(decos == ["memoized_property"], R, site(CTX, "CryptContext._dummy_hash"), str(decos), "`_dummy_hash` is a memoized_property (the descriptor whose clear_cache the reset calls)")
+    D = "passlib.utils.decor"
+    keys = {}
+    g = model.func(D, "memoized_property.__get__")
+    for n in walk_no_nested(g):
+        if isinstance(n, ast.Call) and ast.unparse(n.func) == "setattr" and len(n.args) == 3 and ast.unparse(n.args[0]) == "obj":
+            keys["__get__ (store)"] = ast.unparse(n.args[1])
+        if isinstance(n, ast.Assign) and isinstance(n.targets[0], ast.Subscript) and ast.unparse(n.targets[0].value) == "obj.__dict__":
+            keys["__get__ (store)"] = ast.unparse(n.targets[0].slice)
+    for m, meth in (("clear_cache", "pop"), ("peek_cache", "get")):
+        f2 = model.func(D, f"memoized_property.{m}")
+        for n in walk_no_nested(f2):
+            if isinstance(n, ast.Call) and ast.unparse(n.func) == f"obj.__dict__.{meth}" and n.args:
+                keys[m] = ast.unparse(n.args[0])
+    same = len(keys) == 3 and len(set(keys.values())) == 1
+    rep.check(same, R, site(D, "memoized_property"), str(keys), "the memoizer stores, clears and peeks the instance slot under one key expression",
+              witness="ctx.verify(x, None); ctx.update(schemes=[...other default...]); ctx.verify(x, None) -> UnknownHashError / dummy verification by the old scheme: clear_cache() pops a key nothing was stored under")
+    nm = model.func(D, "memoized_property.__init__")
+    rep.check(has_stmt(nm, "self.__name__ = func.__name__") or keys.get("clear_cache") != "self.__name__", R, site(D, "memoized_property.__init__"), "self.__name__ = func.__name__",
+              "the slot key is the attribute name the descriptor is bound under (the function's name)")
 
 
 def rule_c(model, rep):
